@@ -118,20 +118,18 @@ def listenLoop (g : Nat) (fds : List Nat) : Nat → List Srv → List Event × B
 /-- second loop of `startServers`: one Serve goroutine per server -/
 def serves (g n : Nat) : List Event := (List.range n).map (.serve g)
 
-/-- `startWithListenerFds`: events and success.  `isRestart` = `restartFds != nil`. -/
+/-- two stages in sequence: the second runs only if the first succeeded (`if err != nil { return err }`) -/
+def andThen (a b : List Event × Bool) : List Event × Bool :=
+  if a.2 then (a.1 ++ b.1, b.2) else a
+
+/-- `startWithListenerFds`: events and success.  `isRestart` = `restartFds != nil`.
+Parsing, directive setup and `MakeServers` produce no lifecycle event; then OnFirstStartup (not on a restart),
+OnStartup, the listen loop and the serve loop, each stage only if the previous one succeeded. -/
 def load (g : Nat) (c : Cfg) (isRestart : Bool) (fds : List Nat) : List Event × Bool :=
-  match c.fail with
-  | .parse => ([], false)
-  | .setup => ([], false)
-  | .make => ([], false)
-  | _ =>
-    let e1 := if isRestart then ([], true) else runCbs .fs g (c.fail == .first)
-    if !e1.2 then (e1.1, false) else
-    let e2 := runCbs .su g (c.fail == .startup)
-    if !e2.2 then (e1.1 ++ e2.1, false) else
-    let e3 := listenLoop g fds 0 c.servers
-    if !e3.2 then (e1.1 ++ e2.1 ++ e3.1, false) else
-    (e1.1 ++ e2.1 ++ e3.1 ++ serves g c.servers.length, true)
+  if c.fail = .parse ∨ c.fail = .setup ∨ c.fail = .make then ([], false) else
+  andThen (if isRestart then ([], true) else runCbs .fs g (c.fail == .first))
+    (andThen (runCbs .su g (c.fail == .startup))
+      (andThen (listenLoop g fds 0 c.servers) (serves g c.servers.length, true)))
 
 /-- `Instance.Stop`: `Stop()` on every GracefulServer, in order -/
 def stopLoop (g : Nat) : Nat → List Srv → List Event
